@@ -351,6 +351,9 @@ def _fill_in_default_arguments(
     i_arg = 0
     arg_array = list(call.args)
     keywords = list(call.keywords)
+    # With a `*seq` or `**mapping` argument nobody knows which parameters the call binds.
+    if any(isinstance(a, ast.Starred) for a in arg_array) or any(k.arg is None for k in keywords):
+        fill_in_defaults = False
     for i_param, param in enumerate(sig.parameters.values()):
         is_receiver = has_receiver and i_param == 0
         # `*args` and `**kwargs` take whatever else the call site has - nothing is required.
